@@ -177,23 +177,24 @@ func suiteConvertPlain(R *runner, r *rng) {
 // pairs for which the library's conversion of STYLED sources is not the conversion through the plain view, with the
 // reason (what the source reader sets that the destination writer emits)
 var plainStyledSkipPairs = map[string]string{
-	"srt->srt":   "same format: the markup is kept (C01)",
-	"vtt->vtt":   "same format: tags, settings, regions are kept (C02)",
-	"ssa->ssa":   "same format: styles, override blocks, script info are kept (C04)",
-	"srt->vtt":   "bold/italic/underline travel as tags and the font colour as a class (modelled by Model/Conv.v, suites convsv/convops)",
-	"srt->ttml":  "the font colour travels as tts:color and every run is written as its own span",
-	"srt->stl":   "the STL writer joins the runs of a line with a space; the plain view puts run texts together",
-	"vtt->stl":   "the STL writer joins the runs of a line with a space",
-	"ssa->stl":   "the STL writer joins the runs of a line with a space",
-	"vtt->ssa":   "voice names travel as the Name column",
-	"ssa->vtt":   "the speaker name travels as a voice tag",
-	"vtt->ttml":  "regions and the default style are written as TTML layout/styling; runs as spans",
-	"ssa->ttml":  "the styles map is written as TTML styling; runs as spans",
-	"ttml->srt":  "harness-rendered TTML (self-closing tags, prefixes, comments) is outside the byte-level XML parser model's subset",
-	"ttml->vtt":  "outside the XML parser model's subset",
-	"ttml->ssa":  "outside the XML parser model's subset",
-	"ttml->stl":  "outside the XML parser model's subset",
-	"ttml->ttml": "outside the XML parser model's subset",
+	"srt->srt":  "same format: the markup is kept (C01)",
+	"vtt->vtt":  "same format: tags, settings, regions are kept (C02)",
+	"ssa->ssa":  "same format: styles, override blocks, script info are kept (C04)",
+	"srt->vtt":  "bold/italic/underline travel as tags and the font colour as a class (modelled by Model/Conv.v, suites convsv/convops)",
+	"srt->ttml": "the font colour travels as tts:color and every run is written as its own span",
+	"srt->stl":  "the STL writer joins the runs of a line with a space; the plain view puts run texts together",
+	"vtt->stl":  "the STL writer joins the runs of a line with a space",
+	"ssa->stl":  "the STL writer joins the runs of a line with a space",
+	"vtt->ssa":  "voice names travel as the Name column",
+	"ssa->vtt":  "the speaker name travels as a voice tag",
+	"vtt->ttml": "regions and the default style are written as TTML layout/styling; runs as spans",
+	"ssa->ttml": "the styles map is written as TTML styling; runs as spans",
+	// TTML sources are decoded through the XML parser model for hand-written documents (Kit/XmlParse2.v); ttml->srt is
+	// compared; the pairs below legitimately differ from the plain view:
+	"ttml->vtt":  "TTML regions (with their origin/extent mapped to WebVTT settings) and the cue's region travel to WebVTT",
+	"ttml->ssa":  "the TTML styles map is written as the SSA styles section",
+	"ttml->stl":  "the STL writer joins the runs of a line with a space, and the mapped language goes to the GSI block",
+	"ttml->ttml": "same format: styles, regions, references and inline attributes are kept (C03)",
 }
 
 // Styled and metadata-bearing sources (documents of the C01/C02/C04 generators, TTML with styles and regions; run texts
